@@ -342,6 +342,17 @@ func (w *World) RandomTx(v *View, height uint64, inBlock []*wire.MsgTx) *wire.Ms
 	return tx
 }
 
+func bindingStyleFits(tx *wire.MsgTx, height uint64) bool {
+	after := height >= consensus.MASSIP0002WarmUpHeight
+	for _, o := range tx.TxOut {
+		ro := ReadOut(wire.OutPoint{}, o, 0, false)
+		if ro.Class == ClassBinding && (len(ro.Target) == 22) != after {
+			return false
+		}
+	}
+	return true
+}
+
 func hasBindingInAndOut(v *View, tx *wire.MsgTx) bool {
 	in, out := false, false
 	for _, i := range tx.TxIn {
@@ -381,6 +392,9 @@ func (w *World) BuildBlock(parent *Block, carry []*wire.MsgTx, nRandom int) (*Bl
 		return nil, err
 	}
 	for _, c := range carry {
+		if !bindingStyleFits(c, height) {
+			continue // consensus: 22-byte targets only from the warm-up height on, 20-byte ones only before
+		}
 		if err := v.ApplyTx(c, height); err == nil {
 			txs = append(txs, c)
 		}
